@@ -125,12 +125,15 @@ let () = run_lines (fun toks ->
      | "s.pollard.ip" -> let ys = rest 2 in ip_res ys (Model.pollard_inplace_s isp fuel_loop fuel_rho ys a.(0) a.(1))
      | "s.factor.ip" -> let ys = rest 2 in ip_res ys (Model.factor_inplace_s isp fuel_loop fuel_rho ys a.(0) a.(1))
      | "s.iffactorprime.ip" -> let ys = rest 2 in ip_res3 ys (Model.iffactorprime_inplace_s isp fuel_loop fuel_loop fuel_rho ys a.(0) a.(1))
+     (* complete factorisation / divisor list on the scripted walk: the script is threaded INSIDE the extracted Coq functions (set2_s, divisors_of_s) *)
      | "s.set2" | "s.set2.list" ->
-       let (ifp, tail) = threaded (rest 2) (fun ys nn -> Model.iffactorprime_s isp fuel_loop fuel_loop fuel_rho ys nn a.(1)) in
-       (match Model.set2_model ifp fuel_f a.(0) with None -> "NONE" | Some (l, fl) -> (if fl then "1" else "0") ^ pairs l ^ tail ())
+       let ys = rest 2 in
+       (match Model.set2_s isp fuel_f fuel_loop fuel_loop fuel_rho ys a.(0) a.(1) with
+        | None -> "NONE" | Some ((l, fl), rest') -> (if fl then "1" else "0") ^ pairs l ^ " | " ^ used ys rest' ^ " 0")
      | "s.divisors" ->
-       let (ifp, tail) = threaded (rest 2) (fun ys nn -> Model.iffactorprime_s isp fuel_loop fuel_loop fuel_rho ys nn a.(1)) in
-       (match Model.divisors_of_model ifp fuel_f a.(0) with None -> "NONE" | Some l -> zlist l ^ tail ())
+       let ys = rest 2 in
+       (match Model.divisors_of_s isp fuel_f fuel_loop fuel_loop fuel_rho ys a.(0) with
+        | None -> "NONE" | Some (l, rest') -> zlist l ^ " | " ^ used ys rest' ^ " 0")
      | "s.set1" ->
        let (ifp, tail) = threaded (rest 2) (fun ys nn -> Model.primefactor_s isp fuel_loop fuel_loop fuel_loop fuel_rho ys nn) in
        (match Model.set1_model ifp fuel_f a.(0) with None -> "NONE" | Some l -> zlist l ^ tail ())
